@@ -24,6 +24,10 @@ pub struct Case {
     pub foreign_fdt: bool,
     pub md5_check: bool,
     pub receive_once: bool,
+    /// receiver's object_max_cache_size (None: flute's default); tiny values make the receiver refuse
+    /// source blocks after the writer has been opened
+    #[serde(default)]
+    pub cache: Option<usize>,
 }
 
 fn map_idx(i: u16, len: usize) -> usize {
@@ -94,7 +98,7 @@ pub fn run_case(c: &Case) -> CaseResult {
     order.truncate(keep);
     // deliver by hand (the foreign FDT needs packet substitution)
     let foreign = if c.foreign_fdt { Some(foreign_fdt_packet(&ls, 900)) } else { None };
-    let rxs = RxSpec { receive_once: c.receive_once, md5_check: c.md5_check, ..RxSpec::default_once() };
+    let rxs = RxSpec { receive_once: c.receive_once, md5_check: c.md5_check, object_max_cache_size: c.cache, ..RxSpec::default_once() };
     let mon = Monitor::new(c.md5_check, c.faults.clone());
     let mut rx = crate::drive::Rx::with_monitor(&rxs, mon.clone());
     for (k, i) in order.iter().enumerate() {
@@ -146,6 +150,7 @@ pub fn run_case(c: &Case) -> CaseResult {
     info.label_if(empty, "empty object");
     info.label_if(c.foreign_fdt, "foreign FDT without OTI");
     info.label_if(truncated, "history cut");
+    info.label_if(c.cache.is_some() && st.writers.iter().any(|w| w.failed()), "tiny cache limit and a writer failed");
     info.label(format!("writers={}", st.writers.len().min(4)));
     Ok(info)
 }
@@ -183,8 +188,9 @@ pub fn case_strategy() -> BoxedStrategy<Case> {
         prop_oneof![3 => Just(false), 1 => Just(true)],
         any::<bool>(),
         any::<bool>(),
+        prop_oneof![4 => Just(None), 1 => prop_oneof![Just(1usize), Just(8), Just(16), Just(32), Just(64), 1usize..200].prop_map(Some)],
     )
-        .prop_map(|(sess, order, faults, keep, foreign_fdt, md5_check, receive_once)| Case { sess, order, faults, keep, foreign_fdt, md5_check, receive_once })
+        .prop_map(|(sess, order, faults, keep, foreign_fdt, md5_check, receive_once, cache)| Case { sess, order, faults, keep, foreign_fdt, md5_check, receive_once, cache })
         .boxed()
 }
 
@@ -195,7 +201,7 @@ pub fn run(eng: &mut Engine) {
     eng.generated(
         PartCfg::new(
             "faults",
-            "small sessions (all schemes, cenc, empty objects, 1-2 objects, 1-2 transfers, FDT repeats) x histories (clean, lossy, duplicated, reordered, cut at any point then receiver dropped) x writer faults (open fails, n-th write fails, builder answers ObjectAlreadyReceived/Abort) x foreign FDT without FEC-OTI attributes; typestate automaton per writer + prefix/complete conditions + all opened writers terminated after drop; non-trivial = a fault was injected or the receiver was dropped with a writer open or an object is empty; distinct by case",
+            "small sessions (all schemes, cenc, empty objects, 1-2 objects, 1-2 transfers, FDT repeats) x histories (clean, lossy, duplicated, reordered, cut at any point then receiver dropped) x writer faults (open fails, n-th write fails, builder answers ObjectAlreadyReceived/Abort) x receiver cache limit (default, or 1-200 bytes so that source blocks are refused after the writer was opened) x foreign FDT without FEC-OTI attributes; typestate automaton per writer + prefix/complete conditions + all opened writers terminated after drop; non-trivial = a fault was injected or the receiver was dropped with a writer open or an object is empty; distinct by case",
             tier.pick(400_000, 8_000_000),
         ),
         case_strategy,
